@@ -31,6 +31,7 @@ ENERGY = {'kilojoule/mole': (1e3, True), 'kilocalorie/mole': (4184.0, True), 'jo
           'kelvin*boltzmann_constant': (KB, False), 'eV/particle': (1.602176634e-19, False), 'millijoule': (1e-3, False)}
 RTOL = 1e-9
 REDUCED = 'mc*dc**2/ps**2'
+PARAMS = {'toVolumeFraction': ('density', 'diameter'), 'toConcentration': ('density',), 'toKelvin': ('temperature',), 'toCelcius': ('temperature',), 'toInvAngstrom': ('wavenumber',), 'toInvNanometer': ('wavenumber',)}
 # the dalton is a MEASURED constant (not fixed by the 2019 SI): its value is taken from the unit library itself (trusted base)
 import pint as _pint
 DALTON = float(_pint.UnitRegistry()('dalton').to('kilogram').magnitude)
@@ -112,7 +113,14 @@ def setup(ctx):
         orig = UnitConverter.__dict__[name]
 
         def make(orig, name):
-            def method(self, *args):
+            def method(self, *args, **kw):
+                if kw:
+                    # documented parameter names
+                    names = {'toVolumeFraction': ('density', 'diameter'), 'toConcentration': ('density',), 'toKelvin': ('temperature',), 'toCelcius': ('temperature',),
+                             'toInvAngstrom': ('wavenumber',), 'toInvNanometer': ('wavenumber',)}[name]
+                    res = orig(self, *args, **kw)
+                    contract(self, name, tuple(args) + tuple(kw[n] for n in names[len(args):]), res)
+                    return res
                 res = orig(self, *args)
                 if _S['ctx'] is not None:
                     contract(self, name, args, res)
@@ -202,7 +210,13 @@ def run_case(ctx, case):
         before = ctx.hooks.get('uc.' + name, 0)
         try:
             x_before = np.array(x, copy=True) if isinstance(x, np.ndarray) else x
-            results[name] = getattr(uc, name)(*args)
+            if case['seed'] % 3 == 1:
+                # called with the documented parameter names
+                pn = PARAMS[name]
+                results[name] = getattr(uc, name)(**dict(zip(pn, args))) if case['seed'] % 2 else getattr(uc, name)(args[0], **dict(zip(pn[1:], args[1:])))
+                ctx.hook('keyword_call')
+            else:
+                results[name] = getattr(uc, name)(*args)
             done += 1
             if isinstance(x, np.ndarray) and not np.array_equal(x, x_before):
                 ctx.violation('uc:%s-modifies-argument' % name, '%s changed the array it was given' % name)
